@@ -364,7 +364,7 @@ def units(tier, seed):
         out.append(("short", {"reader": rn, "maxlen": 2}))
         if tier == "quick":
             out.append(("len3-tagged", {"reader": rn}))
-            out.append(("len4-tagged", {"reader": rn, "lens": [0, 1, 2, 3, 0x7F, 0x80, 0x81, 0x82]}))
+            out.append(("len4-tagged", {"reader": rn, "lens": [0, 1, 2, 3, 0x7F, 0x80, 0x81, 0x82, 0x83]}))
         else:
             for hi in range(0, 256, 32):
                 out.append(("len3-all", {"reader": rn, "lo": hi, "hi": hi + 32}))
